@@ -3,7 +3,7 @@
    framed stream (header fields in either order, any chunking, back-to-back messages) is
    decoded into exactly the messages sent; file URIs round-trip.
    Model: C16/Model.v; tie: harness/props/c16.py. *)
-From Coq Require Import ZArith String.
+From Coq Require Import ZArith String List Arith.
 From FV Require Import Base.Str C16.Model C16.Proofs.
 Local Open Scope N_scope.
 
@@ -60,6 +60,17 @@ Proof.
   apply Forall_app; split; [now apply utf8_char_bytes|exact IH].
 Qed.
 Print Assumptions uri_roundtrip.
+
+(* path_from_uri inverts path_to_uri (up to Path.resolve, see DESIGN): for every path of
+   Unicode code points the decoded bytes are the UTF-8 encoding of the path *)
+Theorem path_uri_roundtrip : forall p, Forall (fun c => c < 1114112) p ->
+  path_from_uri (path_to_uri p) = Some (utf8 p).
+Proof.
+  intros p H. unfold path_from_uri, path_to_uri. fold uri_scheme.
+  rewrite prefixb_app, skipn_app, skipn_all, Nat.sub_diag. cbn [skipn app].
+  f_equal. now apply uri_roundtrip.
+Qed.
+Print Assumptions path_uri_roundtrip.
 
 (* decimal round trip used by the header parser *)
 Theorem content_length_value_roundtrip : forall n, parse_int (dec n) = Some n.
